@@ -40,6 +40,8 @@ pub struct CabiPlan {
     pub panic_at: Option<(u8, u64)>,
     /// fd 1 of the process points at /dev/full during the call
     pub stdout_full: bool,
+    /// fd 2 of the process points at /dev/full during the call (a log file on a full disk)
+    pub stderr_full: bool,
 }
 
 impl CabiPlan {
@@ -56,6 +58,7 @@ impl CabiPlan {
                 },
             )
             .set("stdout", J::str(if self.stdout_full { "/dev/full" } else { "/dev/null" }))
+            .set("stderr", J::str(if self.stderr_full { "/dev/full" } else { "inherited" }))
     }
     pub fn from_json(j: &J) -> Result<CabiPlan, String> {
         Ok(CabiPlan {
@@ -71,6 +74,7 @@ impl CabiPlan {
                 Some(p) => Some((p.get_u64("site").ok_or("site")? as u8, p.get_u64("n").ok_or("n")?)),
             },
             stdout_full: j.get_str("stdout") == Some("/dev/full"),
+            stderr_full: j.get_str("stderr") == Some("/dev/full"),
         })
     }
     fn key(&self) -> u64 {
@@ -137,6 +141,18 @@ fn set_stdout(full: bool) {
     });
 }
 
+thread_local! {
+    /// a saved duplicate of the process's real stderr (the worker's protocol channel)
+    static REAL_STDERR: i32 = unsafe { libc::dup(2) };
+}
+
+fn set_stderr(full: bool) {
+    let real = REAL_STDERR.with(|r| *r);
+    FDS.with(|f| unsafe {
+        libc::dup2(if full { f.full } else { real }, 2);
+    });
+}
+
 pub struct RawOutcome {
     pub status: i32,
     pub result_size: u64,
@@ -148,13 +164,17 @@ pub struct RawOutcome {
     pub injected_fired: bool,
 }
 
+pub fn raw_call(call: Call, input: &[u8], capacity: usize, panic_at: Option<(u8, u64)>, stdout_full: bool) -> RawOutcome {
+    raw_call_ex(call, input, capacity, panic_at, stdout_full, false)
+}
+
 fn fill_pattern(buf: &mut [u8], seed: u64) {
     let mut r = Rng::new(seed);
     r.fill(buf);
 }
 
 /// one wrapper call from the simulated caller
-pub fn raw_call(call: Call, input: &[u8], capacity: usize, panic_at: Option<(u8, u64)>, stdout_full: bool) -> RawOutcome {
+pub fn raw_call_ex(call: Call, input: &[u8], capacity: usize, panic_at: Option<(u8, u64)>, stdout_full: bool, stderr_full: bool) -> RawOutcome {
     // input arena
     let mut in_arena = vec![0u8; CANARY + input.len() + CANARY];
     fill_pattern(&mut in_arena, 0x1a1a ^ input.len() as u64);
@@ -187,6 +207,9 @@ pub fn raw_call(call: Call, input: &[u8], capacity: usize, panic_at: Option<(u8,
         }
     })));
     set_stdout(stdout_full);
+    if stderr_full {
+        set_stderr(true);
+    }
     let status = unsafe {
         let inp = in_arena.as_ptr().add(CANARY);
         let outp = out_arena.as_mut_ptr().add(CANARY);
@@ -196,6 +219,9 @@ pub fn raw_call(call: Call, input: &[u8], capacity: usize, panic_at: Option<(u8,
         }
     };
     set_stdout(false);
+    if stderr_full {
+        set_stderr(false);
+    }
     verif_hooks::set_handler(prev);
     let _ = util::take_last_panic();
     let canary_ok = out_arena[..CANARY] == pre[..] && out_arena[CANARY + capacity..] == post[..];
@@ -230,6 +256,7 @@ pub fn prepare(file: Vec<u8>, announce: &dyn Fn(&J)) -> Result<Prepared, String>
         input_op: StoreOp::Intact,
         panic_at: None,
         stdout_full: false,
+        stderr_full: false,
     };
     announce(
         &J::obj()
@@ -342,7 +369,7 @@ pub fn execute(prep: &Prepared, plan: &CabiPlan) -> RunOutcome {
             digest: d.0,
         };
     }
-    let raw = raw_call(plan.call, &input, plan.capacity, plan.panic_at, plan.stdout_full);
+    let raw = raw_call_ex(plan.call, &input, plan.capacity, plan.panic_at, plan.stdout_full, plan.stderr_full);
     d.u64(raw.status as u64);
     d.u64(if raw.status == 0 { raw.result_size } else { 0 });
     d.u64(raw.canary_ok as u64);
@@ -350,7 +377,7 @@ pub fn execute(prep: &Prepared, plan: &CabiPlan) -> RunOutcome {
     for s in raw.sites.iter() {
         d.u64(*s);
     }
-    let faulted_plan = plan.panic_at.is_some() || plan.stdout_full || plan.input_op != StoreOp::Intact || raw.status != 0;
+    let faulted_plan = plan.panic_at.is_some() || plan.stdout_full || plan.stderr_full || plan.input_op != StoreOp::Intact || raw.status != 0;
     let followup = if faulted_plan {
         let f = match plan.call {
             Call::Compress => raw_call(Call::Compress, &prep.file, prep.bound + 64, None, false),
@@ -703,6 +730,7 @@ impl Engine for CabiEngine {
             input_op: StoreOp::Intact,
             panic_at: None,
             stdout_full: false,
+            stderr_full: false,
         };
         // compress capacities
         let mut caps: Vec<usize> = vec![0, 1, s.saturating_sub(2), s.saturating_sub(1), b.saturating_sub(1), b, b + 1, b + 4096];
@@ -775,6 +803,26 @@ impl Engine for CabiEngine {
                 p.stdout_full = true;
                 plans.push(p);
             }
+        }
+        // failing stderr (a log file on a full disk): successful calls, undersized windows,
+        // damaged input and an internal panic while fd 2 cannot be written
+        for call in [Call::Compress, Call::Decompress] {
+            let (ample, need) = if call == Call::Compress { (b + 64, s) } else { (f + 64, f) };
+            for cap in [ample, need.saturating_sub(1), 0] {
+                let mut p = mk(call, cap);
+                p.stderr_full = true;
+                plans.push(p);
+            }
+            let mut p = mk(call, ample);
+            p.stderr_full = true;
+            p.panic_at = Some((if call == Call::Compress { Site::ScanSignature as u8 } else { Site::ReadChunkEntry as u8 }, 1));
+            plans.push(p);
+        }
+        {
+            let mut p = mk(Call::Decompress, f + 64);
+            p.stderr_full = true;
+            p.input_op = StoreOp::TornPrefix(prep.blob.len() / 2);
+            plans.push(p);
         }
         // damaged / foreign decompress input
         let blen = prep.blob.len();
@@ -858,6 +906,9 @@ impl Engine for CabiEngine {
                     _ => "other",
                 };
                 res.bump(&format!("outcome.{}.{}", callname, status_class));
+                if plan.stderr_full {
+                    res.bump(&format!("fault.{}.stderr_full", callname));
+                }
                 let fault_class = if raw.injected_fired {
                     "injected_panic"
                 } else if plan.stdout_full {
